@@ -96,7 +96,51 @@ def agg_property(run):
                            "the longer bound; distinct = distinct (program, flags) pairs replayed through the real Documenter")
 
 
+C20_CFG = """CONSTANT MaxOps = {maxops}
+CONSTANT MaxDepth = {maxdepth}
+CONSTANT MaxReads = {reads}
+CONSTANT TextMenu <- Texts
+CONSTANT TitleMenu <- Titles
+CONSTANT ItemMenu <- Items
+CONSTANT OpKinds <- {ops}
+INIT Init
+NEXT Next
+VIEW View
+INVARIANT HeadingFramed
+INVARIANT IndentExact
+INVARIANT OptionsFirst
+INVARIANT OrderPreserved
+INVARIANT ClearKeepsHeading
+INVARIANT IndentIsDepth
+INVARIANT Emit
+PROPERTY ToTextIsPure
+"""
+
+
+def c20(run):
+    import rstw
+    q = run.tier == "quick"
+    confs = [("AllOps", 3, 3, 2)] if q else [("AllOps", 4, 3, 2), ("NoTitleOps", 5, 4, 1)]
+    for ops, maxops, maxdepth, reads in confs:
+        res = lib.run_tlc("MC_C20", C20_CFG.format(maxops=maxops, maxdepth=maxdepth, reads=reads, ops=ops))
+        run.add_tlc("MC_C20(%s,ops<=%d,depth<=%d)" % (ops, maxops, maxdepth), res, vacuity_exempt=("SetTitle",))
+        rstw.replay(run, res.lines.get("BEH", []), run.seed, limit=None if q else 150000)
+    res = lib.run_tlc("MC_C20", C20_CFG.format(maxops=9, maxdepth=4, reads=2, ops="AllOps"), simulate=300 if q else 4000,
+                      depth=14, seed=run.seed, workers=8, coverage=False)
+    run.add_tlc("MC_C20(simulate,ops<=9)", res)
+    rstw.replay(run, res.lines.get("BEH", []), run.seed + 1, limit=6000 if q else 60000)
+    run.assumptions += ["single-line field values; section/doctest/simple_table are not exercised",
+                        "the renderer of specification lines into text (harness/rstw.py render_line) is trusted"]
+    return ("TLC enumerates API histories (text with 1-3 lines and own leading spaces, field, bulleted/enumerated list, "
+            "directive, option, title change, clear, to_text on any writer incl. detached ones) up to the bound and checks "
+            "HeadingFramed, IndentExact, OptionsFirst, OrderPreserved, ClearKeepsHeading, ToTextIsPure on the "
+            "specification; every history ending in to_text is replayed on the real RSTWriter and each serialisation is "
+            "compared character for character with the specification's Lines(), serialised twice, and the document "
+            "object compared before/after; header character lists vary with the seed")
+
+
 CHECKS = {p: agg_property for p in AGG}
+CHECKS["C20"] = c20
 
 
 def replay_file(run, pid, path):
